@@ -128,7 +128,7 @@ def demoEnt (k : UInt8) (v : UInt8) : CEnt := { key := [k], ver := 0, del := fal
 
 /-- a commit, a memtable rotation, the flush of the rotated memtable (table 1) -/
 def demoFlush : List Sched :=
-  [.commit [demoEnt 1 1] false, .w, .w, .w, .w, .w, .w, .w, .flushReq, .w, .w, .w, .w, .f, .f, .f, .f, .f, .f]
+  [.commit [demoEnt 1 1] false, .w, .w, .w, .w, .w, .w, .w, .flushReq, .w, .w, .w, .w, .w, .f, .f, .f, .f, .f, .f, .f]
 
 /-- … followed by a compaction of table 1 into table 2 and a commit in flight -/
 def demoHistory : List Sched :=
